@@ -308,7 +308,7 @@ class Shadow:
         self.compare_committed('after-abort')
 
     def op_savepoint(self):
-        sp = self.tm.savepoint()
+        sp = self.tm.savepoint(self.rnd.random() < 0.3)       # sometimes an optimistic savepoint
         S = self.store_set()
         creating = {k for k in S if not (k in self.committed or any(k in L['states'] for L in self.layers))}
         self.layers.append({'states': {k: self.work.get(k, self.mem[k]) for k in S}, 'creating': creating})
